@@ -24,9 +24,9 @@ import scipy.sparse
 from common import (Stream, budget, enc_op, canon_op_json, to_gq, from_gq, dyadic, rng_for, show)
 
 OPEN_STATEMENTS = [
-    'sz_indices_spec: jw_sz_indices enumerates exactly once the basis states of the S_z (and particle number) sector, both '
-    'branches, arbitrary injective up/down maps: not proved (the ingredients combinations_spec and the bits of sums of '
-    'distinct powers are); exhaustive for n_qubits <= 4 (quick, sample to 8) / <= 10 (thorough) through two oracles',
+    'sz_indices_spec for n_electrons=None (the union over the number of pairs): not proved; the fixed-particle-number branch '
+    'is (sz_indices_spec_fixed, arbitrary injective disjoint index maps); the relation numUp + numDown = popcount of the index '
+    'is not proved; both branches are exhaustive for n_qubits <= 4 (quick, sample to 8) / <= 10 (thorough) through two oracles',
     'restrict_is_projection at the matrix level (M[ix_(I, I)] is the compression to the eigenspace): the index-set theorem '
     'number_indices_spec and number_operator_diag are proved on masks; invariance of the particle number under the bit '
     'reversal between masks and big-endian matrix indices is not; every restricted entry is compared with the Spec by the '
